@@ -196,17 +196,22 @@ def structure_to_schema(structure, definitions_schema, serialization_mapper=None
 def _generate_schema_for_fields_internal(
     definitions_schema, field_by_name, mapper, properties, required
 ):
+    # "required" is renamed in place, entry by entry; "original" keeps, position by position, the
+    # field name each entry stands for, so that an entry already renamed to the NAME of a sibling
+    # (mapper {"x": "a", "a": "z"}) is not renamed, or dropped, a second time for that sibling
+    original = list(required)
     for key, field in field_by_name.items():
         mapped_key = (
             mapper[key] if key in mapper and isinstance(mapper[key], (str,)) else key
         )
         mapped_value = _validated_mapped_value(mapper, key)
         if mapped_value is DoNotSerialize or isinstance(mapped_value, Constant):
-            if mapped_key in required:
-                required.pop(required.index(mapped_key))
+            if key in original:
+                required.pop(original.index(key))
+                original.pop(original.index(key))
         else:
-            if key in required:
-                required[required.index(key)] = mapped_key
+            if key in original:
+                required[original.index(key)] = mapped_key
             sub_mapper = mapper.get(f"{key}._mapper", {})
             sub_schema = convert_to_schema(
                 field, definitions_schema, serialization_mapper=sub_mapper
@@ -217,8 +222,9 @@ def _generate_schema_for_fields_internal(
                 if isinstance(default_val, enum.Enum):
                     default_val = default_val.name
                 sub_schema["default"] = deepcopy(default_val)
-                if mapped_key not in required:
+                if key not in original:
                     required.append(mapped_key)
+                    original.append(key)
             properties[mapped_key] = sub_schema
 
 
